@@ -10,11 +10,17 @@
   (c) objects, metadata documents and pid references change value only by one
       whole-file step (publish / retire / remove): the model has no effect that
       writes them in place, and the correspondence run flags any in-place write
-      of the real code.
+      of the real code;
+  (d) whatever the file system answers, a call writes into a pid reference only
+      its own cid and into a document only the data it was given (`Proofs/Whole.lean`),
+      so at every instant every pid reference holds one whole cid some store / tag
+      call supplied and every document one whole version some `store_metadata`
+      call supplied.
 -/
 import HSModel.Proofs.Shape
 import HSModel.Proofs.RunInv
 import HSModel.Proofs.AbsLemmas
+import HSModel.Proofs.Whole
 namespace HS.C09
 variable (cfg : Config) (o : Oracle)
 
@@ -204,5 +210,55 @@ theorem permanent_entries_change_atomically (s s' : Store) (x : Eff) (ha : s.app
 theorem empty_ok : ObjsAddressed cfg o Store.empty := by
   intro c t h
   simp [Store.empty] at h
+
+/-! ### pid references and documents hold whole supplied values -/
+
+/-- **Pid references and documents are whole at every instant.** During any
+    call, under any fault plan, in every intermediate state a concurrent reader
+    or a post-mortem can observe: each pid reference holds a value it held
+    before the call or the call's own cid, each metadata document a version that
+    was there before or the one this `store_metadata` supplied — never anything
+    else (in particular nothing partial: a value appears by one publish). -/
+theorem refs_and_docs_whole_at_every_instant (c : Call) (w : World) (vs : List Str) (ts : List Tok)
+    (h : ValuesFrom vs ts w.st) :
+    ∀ s ∈ (Prog.runSnap (c.prog cfg o) w []).2.2,
+      ValuesFrom (vs ++ cidsSupplied cfg o c) (ts ++ docsSupplied c) s :=
+  Prog.runSnap_inv (J := ValuesFrom (vs ++ cidsSupplied cfg o c) (ts ++ docsSupplied c)) _
+    (call_supplies cfg o vs ts c) (values_preserved _ _) (fun _ hw => hw) w
+    (valuesFrom_mono h (fun _ hv => List.mem_append_left _ hv) (fun _ ht => List.mem_append_left _ ht))
+    [] (by intro s hs; cases hs)
+
+/-- … at every point at which the process may die inside the call … -/
+theorem refs_and_docs_whole_at_every_crash_point (c : Call) (n : Nat) (w : World) (vs : List Str) (ts : List Tok)
+    (h : ValuesFrom vs ts w.st) :
+    ValuesFrom (vs ++ cidsSupplied cfg o c) (ts ++ docsSupplied c) (Prog.crashAt n (c.prog cfg o) w).2.st :=
+  Prog.crashAt_inv _ (call_supplies cfg o vs ts c) (values_preserved _ _) n w
+    (valuesFrom_mono h (fun _ hv => List.mem_append_left _ hv) (fun _ ht => List.mem_append_left _ ht))
+
+/-- … and after it -/
+theorem refs_and_docs_whole_after (c : Call) (w : World) (vs : List Str) (ts : List Tok)
+    (h : ValuesFrom vs ts w.st) :
+    ValuesFrom (vs ++ cidsSupplied cfg o c) (ts ++ docsSupplied c) ((c.prog cfg o).run w).2.st :=
+  Prog.run_inv _ (call_supplies cfg o vs ts c) (values_preserved _ _) w
+    (valuesFrom_mono h (fun _ hv => List.mem_append_left _ hv) (fun _ ht => List.mem_append_left _ ht))
+
+/-- over whole histories from the empty store: every pid reference holds the cid
+    of one of the store / tag calls made, every document a version one of the
+    `store_metadata` calls supplied -/
+theorem refs_and_docs_whole_history (cs : List Call) (w : World) (vs : List Str) (ts : List Tok)
+    (h : ValuesFrom vs ts w.st) :
+    ValuesFrom (vs ++ cs.flatMap (cidsSupplied cfg o)) (ts ++ cs.flatMap docsSupplied)
+      (cs.foldl (fun w c => ((c.prog cfg o).run w).2) w).st := by
+  induction cs generalizing w vs ts with
+  | nil => simpa using h
+  | cons c r ih =>
+    have := ih _ _ _ (refs_and_docs_whole_after cfg o c w vs ts h)
+    simpa [List.flatMap_cons, List.append_assoc] using this
+
+theorem values_empty : ValuesFrom [] [] Store.empty := by
+  constructor
+  · intro k v h; simp [Store.empty] at h
+  · intro d n t h; simp [Store.empty] at h
+
 
 end HS.C09
